@@ -29,4 +29,5 @@ def run(tier):
 
 def replay(prop, ob):
     from ..contracts import lossgrad as LG
-    return LG.replay(prop, ob)
+    r = LG.replay(prop, ob)
+    return r if r is not None else DP.replay(ob)
